@@ -1,2 +1,712 @@
-(* Lemmas about Model/Styler.v (stub). *)
-From Klog Require Import Base.Prelude Model.Styler.
+(* Lemmas about Model/Styler.v (C18): the SGR matcher, themes, style boundaries, content neutrality. *)
+From Klog Require Import Base.Prelude Base.Utf8 Model.Styler.
+From Coq Require Import Arith.
+Open Scope N_scope.
+
+(* ---------- complete sequences ---------- *)
+
+(* a string the regexp `\x1b\[[\d;]+m` matches entirely *)
+Definition sgr_seq (m : bytes) : Prop :=
+  exists ds, ds <> [] /\ forallb is_param ds = true /\ m = c_esc :: c_lbr :: ds ++ [c_m].
+
+(* a concatenation of complete sequences *)
+Inductive sgrs : bytes -> Prop :=
+| sgrs_nil : sgrs []
+| sgrs_cons m s : sgr_seq m -> sgrs s -> sgrs (m ++ s).
+
+Lemma is_param_m : is_param c_m = false. Proof. reflexivity. Qed.
+Lemma is_param_esc : is_param c_esc = false. Proof. reflexivity. Qed.
+Lemma is_param_lbr : is_param c_lbr = false. Proof. reflexivity. Qed.
+
+Lemma params_len_all ds c r :
+  forallb is_param ds = true -> is_param c = false -> params_len (ds ++ c :: r) = length ds.
+Proof.
+  induction ds as [|d ds IH]; simpl; intros H Hc.
+  - now rewrite Hc.
+  - apply andb_true_iff in H as [Hd H]. rewrite Hd. f_equal. now apply IH.
+Qed.
+
+Lemma params_len_firstn s : forallb is_param (firstn (params_len s) s) = true.
+Proof.
+  induction s as [|c r IH]; simpl; [reflexivity|].
+  destruct (is_param c) eqn:E; simpl; [now rewrite E|reflexivity].
+Qed.
+
+Lemma params_len_le s : (params_len s <= length s)%nat.
+Proof. induction s as [|c r IH]; simpl; [lia|]. destruct (is_param c); simpl; lia. Qed.
+
+Lemma sgr_seq_length m : sgr_seq m -> (3 <= length m)%nat.
+Proof. intros (ds & Hne & _ & ->). destruct ds; [congruence|]. simpl. rewrite app_length. simpl. lia. Qed.
+
+Lemma sgr_seq_nonnil m : sgr_seq m -> m <> [].
+Proof. intros H ->. apply sgr_seq_length in H. simpl in H. lia. Qed.
+
+(* the match at the head of m ++ r is m *)
+Lemma sgr_len_seq m r : sgr_seq m -> sgr_len (m ++ r) = length m.
+Proof.
+  intros (ds & Hne & Hds & ->). cbn [app sgr_len]. rewrite !N.eqb_refl. cbn [andb].
+  rewrite <- app_assoc. cbn [app]. rewrite (params_len_all ds c_m r Hds is_param_m).
+  rewrite nth_error_app2 by lia. rewrite Nat.sub_diag. cbn [nth_error]. rewrite N.eqb_refl.
+  destruct ds as [|d ds]; [congruence|]. cbn [length Nat.ltb Nat.leb andb].
+  rewrite app_length. cbn [length]. lia.
+Qed.
+
+(* a non-zero sgr_len is the length of a complete sequence at the head *)
+Lemma sgr_len_inv s n : sgr_len s = S n -> exists m r, s = m ++ r /\ sgr_seq m /\ length m = S n.
+Proof.
+  destruct s as [|e [|b r]]; cbn [sgr_len]; try discriminate.
+  destruct ((e =? c_esc) && (b =? c_lbr)) eqn:E; [|discriminate].
+  apply andb_true_iff in E as [He Hb]. apply N.eqb_eq in He, Hb. subst e b.
+  destruct (Nat.ltb 0 (params_len r)) eqn:Hpos; [|discriminate]. cbn [andb].
+  destruct (nth_error r (params_len r)) as [c|] eqn:Hn; [|discriminate].
+  destruct (c =? c_m) eqn:Hc; [|discriminate]. apply N.eqb_eq in Hc. subst c.
+  intros [= <-].
+  apply Nat.ltb_lt in Hpos.
+  pose proof (nth_error_split r (params_len r) Hn) as (l1 & l2 & Hr & Hl).
+  assert (Hf : firstn (params_len r) r = l1).
+  { rewrite Hr at 2. rewrite <- Hl. rewrite firstn_app, Nat.sub_diag, firstn_all. simpl. now rewrite app_nil_r. }
+  exists (c_esc :: c_lbr :: l1 ++ [c_m]), l2. split; [|split].
+  - rewrite Hr at 1. cbn [app]. now rewrite <- app_assoc.
+  - exists l1. split; [|split; [|reflexivity]].
+    + intros ->. simpl in Hl. lia.
+    + rewrite <- Hf. apply params_len_firstn.
+  - cbn [length]. rewrite app_length. cbn [length]. lia.
+Qed.
+
+(* ---------- unfolding strip ---------- *)
+
+Lemma strip_aux_skipn k s : strip_aux k s = strip (skipn k s).
+Proof.
+  revert k; induction s as [|c r IH]; intros [|k]; try reflexivity.
+  cbn [strip_aux skipn]. apply IH.
+Qed.
+
+Lemma strip_nil : strip [] = [].
+Proof. reflexivity. Qed.
+
+Lemma strip_cons c r :
+  strip (c :: r) = match sgr_len (c :: r) with
+                   | O => c :: strip r
+                   | S n => strip (skipn n r)
+                   end.
+Proof.
+  unfold strip at 1. cbn [strip_aux]. destruct (sgr_len (c :: r)); [reflexivity|]. apply strip_aux_skipn.
+Qed.
+
+Lemma strip_seq m r : sgr_seq m -> strip (m ++ r) = strip r.
+Proof.
+  intros H. pose proof (sgr_len_seq m r H) as Hl. pose proof (sgr_seq_length m H) as H3.
+  destruct m as [|c m']; [simpl in H3; lia|]. cbn [app] in *. rewrite strip_cons, Hl. cbn [length].
+  f_equal. rewrite skipn_app, skipn_all, Nat.sub_diag. reflexivity.
+Qed.
+
+Lemma strip_no_match c r : sgr_len (c :: r) = O -> strip (c :: r) = c :: strip r.
+Proof. intros H. now rewrite strip_cons, H. Qed.
+
+Lemma strip_sgrs s r : sgrs s -> strip (s ++ r) = strip r.
+Proof. induction 1 as [|m s Hm _ IH]; [reflexivity|]. now rewrite <- app_assoc, strip_seq. Qed.
+
+Lemma strip_sgrs_nil s : sgrs s -> strip s = [].
+Proof. intros H. rewrite <- (app_nil_r s). now rewrite strip_sgrs. Qed.
+
+Lemma sgrs_app a b : sgrs a -> sgrs b -> sgrs (a ++ b).
+Proof. induction 1; intros Hb; [exact Hb|]. rewrite <- app_assoc. constructor; auto. Qed.
+
+Lemma sgrs_one m : sgr_seq m -> sgrs m.
+Proof. intros H. rewrite <- (app_nil_r m). constructor; [exact H|constructor]. Qed.
+
+(* a non-empty concatenation of sequences starts with ESC *)
+Lemma sgrs_head s : sgrs s -> s <> [] -> exists t, s = c_esc :: t.
+Proof.
+  induction 1 as [|m s Hm Hs IH]; [congruence|]. intros _.
+  destruct Hm as (ds & _ & _ & ->). eexists. reflexivity.
+Qed.
+
+(* decision procedure for sgrs, used to check concrete themes by computation *)
+Fixpoint sgrsb_fuel (fuel : nat) (s : bytes) : bool :=
+  match fuel with
+  | O => is_nil s
+  | S k => match s with
+           | [] => true
+           | _ => match sgr_len s with O => false | S n => sgrsb_fuel k (skipn (S n) s) end
+           end
+  end.
+Definition sgrsb (s : bytes) : bool := sgrsb_fuel (length s) s.
+
+Lemma sgrsb_fuel_sound fuel s : sgrsb_fuel fuel s = true -> sgrs s.
+Proof.
+  revert s; induction fuel as [|k IH]; intros s; cbn [sgrsb_fuel].
+  - destruct s; [constructor|discriminate].
+  - destruct s as [|c r]; [constructor|].
+    destruct (sgr_len (c :: r)) as [|n] eqn:E; [discriminate|]. intros H.
+    apply sgr_len_inv in E as (m & r' & Hs & Hm & Hl). rewrite Hs in *.
+    rewrite <- Hl in H. rewrite skipn_app, skipn_all, Nat.sub_diag in H. cbn [skipn app] in H.
+    constructor; auto.
+Qed.
+
+Lemma sgrsb_sound s : sgrsb s = true -> sgrs s.
+Proof. apply sgrsb_fuel_sound. Qed.
+
+(* ---------- themes ---------- *)
+
+(* every unit a styler can emit is a concatenation of complete sequences *)
+Definition theme_ok (th : theme) : Prop :=
+  sgrs (th_reset th) /\ sgrs (th_underlined th) /\ sgrs (th_bold th) /\
+  forall c, c <> 0 -> lookup c (th_codes th) <> [] ->
+    sgrs (th_fg_prefix th ++ lookup c (th_codes th) ++ th_suffix th) /\
+    sgrs (th_bg_prefix th ++ lookup c (th_codes th) ++ th_suffix th).
+
+Definition theme_okb (th : theme) : bool :=
+  sgrsb (th_reset th) && sgrsb (th_underlined th) && sgrsb (th_bold th) &&
+  forallb (fun kv => is_nil (snd kv) ||
+                     (sgrsb (th_fg_prefix th ++ snd kv ++ th_suffix th) &&
+                      sgrsb (th_bg_prefix th ++ snd kv ++ th_suffix th))) (th_codes th).
+
+Lemma lookup_in k l : lookup k l <> [] -> In (k, lookup k l) l.
+Proof.
+  induction l as [|[k' v] r IH]; simpl; [congruence|].
+  destruct (k =? k') eqn:E; intros H.
+  - apply N.eqb_eq in E. subst. now left.
+  - right. auto.
+Qed.
+
+Lemma theme_okb_sound th : theme_okb th = true -> theme_ok th.
+Proof.
+  unfold theme_okb, theme_ok. rewrite !andb_true_iff. intros [[[H1 H2] H3] H4].
+  repeat split; try now apply sgrsb_sound.
+  - pose proof (lookup_in _ _ H0) as Hin. rewrite forallb_forall in H4. specialize (H4 _ Hin). simpl in H4.
+    destruct (lookup c (th_codes th)); [congruence|]. simpl in H4.
+    apply andb_true_iff in H4 as [H4 _]. now apply sgrsb_sound.
+  - pose proof (lookup_in _ _ H0) as Hin. rewrite forallb_forall in H4. specialize (H4 _ Hin). simpl in H4.
+    destruct (lookup c (th_codes th)); [congruence|]. simpl in H4.
+    apply andb_true_iff in H4 as [_ H4]. now apply sgrsb_sound.
+Qed.
+
+Lemma no_colour_ok : theme_ok no_colour.
+Proof. apply theme_okb_sound. vm_compute. reflexivity. Qed.
+Lemma dark_ok : theme_ok dark.
+Proof. apply theme_okb_sound. vm_compute. reflexivity. Qed.
+Lemma light_ok : theme_ok light.
+Proof. apply theme_okb_sound. vm_compute. reflexivity. Qed.
+Lemma basic_ok : theme_ok basic.
+Proof. apply theme_okb_sound. vm_compute. reflexivity. Qed.
+
+Lemma new_styler_ok name th : new_styler name = Ok th -> theme_ok th.
+Proof.
+  unfold new_styler.
+  destruct (bytes_eqb name b!"no_colour"); [intros [= <-]; apply no_colour_ok|].
+  destruct (bytes_eqb name b!"dark"); [intros [= <-]; apply dark_ok|].
+  destruct (bytes_eqb name b!"light"); [intros [= <-]; apply light_ok|].
+  destruct (bytes_eqb name b!"basic"); [intros [= <-]; apply basic_ok|discriminate].
+Qed.
+
+Lemma colour_seq_sgrs th c :
+  theme_ok th -> sgrs (colour_seq th (th_fg_prefix th) c) /\ sgrs (colour_seq th (th_bg_prefix th) c).
+Proof.
+  intros (_ & _ & _ & H). unfold colour_seq.
+  destruct (c =? 0) eqn:E0; cbn [negb andb]; [split; constructor|].
+  destruct (lookup c (th_codes th)) as [|x l] eqn:El; cbn [is_nil negb]; [split; constructor|].
+  apply N.eqb_neq in E0. specialize (H c E0). rewrite El in H. apply H. congruence.
+Qed.
+
+(* seqs_wellformed *)
+Lemma seqs_sgrs th p : theme_ok th -> sgrs (seqs th p).
+Proof.
+  intros H. pose proof (colour_seq_sgrs th (p_color p) H) as [Hf _].
+  pose proof (colour_seq_sgrs th (p_background p) H) as [_ Hb].
+  destruct H as (Hr & Hu & Hbo & _). unfold seqs.
+  repeat apply sgrs_app; auto.
+  - destruct (p_underlined p); [auto|constructor].
+  - destruct (p_bold p); [auto|constructor].
+Qed.
+
+Lemma seqs_strip th p : theme_ok th -> strip (seqs th p) = [].
+Proof. intros H. apply strip_sgrs_nil, seqs_sgrs, H. Qed.
+
+Lemma mark_sgrs th m : theme_ok th -> sgrs (mark_bytes th m).
+Proof. intros H. destruct m; simpl; [now apply seqs_sgrs|apply H]. Qed.
+
+Lemma mark_no_colour m : mark_bytes no_colour m = [].
+Proof. destruct m as [[c b bo u]|]; [|reflexivity]. unfold mark_bytes, seqs, colour_seq. simpl.
+  rewrite !andb_false_r. destruct u, bo; reflexivity. Qed.
+
+(* ---------- sequences straddling a position ---------- *)
+
+(* a non-empty suffix of a and a non-empty prefix of b together are one complete sequence *)
+Definition spans (a b : bytes) : Prop :=
+  exists a' p q b', a = a' ++ p /\ b = q ++ b' /\ p <> [] /\ q <> [] /\ sgr_seq (p ++ q).
+
+Lemma spans_left x a b : spans a b -> spans (x ++ a) b.
+Proof. intros (a' & p & q & b' & -> & -> & H). exists (x ++ a'), p, q, b'. rewrite app_assoc. auto. Qed.
+
+Lemma spans_nil_l b : ~ spans [] b.
+Proof. intros (a' & p & q & b' & H & _ & Hp & _). destruct a', p; simpl in H; congruence. Qed.
+
+Lemma spans_nil_r a : ~ spans a [].
+Proof. intros (a' & p & q & b' & _ & H & _ & Hq & _). destruct q; simpl in H; congruence. Qed.
+
+(* the bytes of a sequence after its first are never ESC *)
+Lemma sgr_seq_tail x t : sgr_seq (x :: t) -> ~ In c_esc t.
+Proof.
+  intros (ds & _ & Hds & [= -> ->]). intros [H|H]; [discriminate|].
+  apply in_app_or in H as [H|[H|[]]]; [|discriminate].
+  rewrite forallb_forall in Hds. apply Hds in H. discriminate.
+Qed.
+
+Lemma spans_esc_r a t : ~ spans a (c_esc :: t).
+Proof.
+  intros (a' & p & q & b' & _ & Hb & Hp & Hq & Hs).
+  destruct q as [|y q]; [congruence|]. cbn [app] in Hb. injection Hb as <- _.
+  destruct p as [|x p]; [congruence|]. cbn [app] in Hs. apply sgr_seq_tail in Hs.
+  apply Hs, in_or_app. right. now left.
+Qed.
+
+(* no match straddles the position: strip distributes *)
+Lemma strip_app_nospan_len n : forall a b, (length a <= n)%nat -> ~ spans a b -> strip (a ++ b) = strip a ++ strip b.
+Proof.
+  induction n as [|n IH]; intros a b Hl Hs.
+  - destruct a; [reflexivity|simpl in Hl; lia].
+  - destruct a as [|c r]; [reflexivity|]. cbn [length] in Hl.
+    destruct (sgr_len (c :: r)) as [|k] eqn:E.
+    + (* no match at the head of a *)
+      destruct (sgr_len ((c :: r) ++ b)) as [|k'] eqn:E'.
+      * cbn [app] in *. rewrite (strip_no_match _ _ E), (strip_no_match _ _ E'). cbn [app]. f_equal.
+        apply IH; [lia|]. intros H. apply Hs. apply (spans_left [c]) in H. exact H.
+      * exfalso. apply sgr_len_inv in E' as (m & r' & Heq & Hm & Hlm).
+        apply app_eq_app in Heq as (l & [[Ha Hr]|[Hm' Hb]]).
+        -- rewrite Ha, (sgr_len_seq _ _ Hm), Hlm in E. discriminate.
+        -- destruct l as [|y l].
+           ++ rewrite app_nil_r in Hm'. subst m. rewrite <- (app_nil_r (c :: r)) in E.
+              rewrite (sgr_len_seq _ _ Hm), Hlm in E. discriminate.
+           ++ apply Hs. exists [], (c :: r), (y :: l), r'. repeat split; try congruence.
+    + (* a match at the head of a *)
+      apply sgr_len_inv in E as (m & r' & Heq & Hm & Hlm). rewrite Heq, <- app_assoc, (strip_seq m r' Hm), (strip_seq m (r' ++ b) Hm).
+      apply IH.
+      * apply (f_equal (@length _)) in Heq. rewrite app_length in Heq. cbn [length] in Heq. lia.
+      * intros H. apply Hs. rewrite Heq. now apply spans_left.
+Qed.
+
+Lemma strip_app_nospan a b : ~ spans a b -> strip (a ++ b) = strip a ++ strip b.
+Proof. apply (strip_app_nospan_len (length a)). lia. Qed.
+
+(* a non-empty run of complete sequences separates what is before from what is after *)
+Lemma strip_app_sgrs a s b : sgrs s -> s <> [] -> strip (a ++ s ++ b) = strip a ++ strip b.
+Proof.
+  intros Hs Hne. destruct (sgrs_head s Hs Hne) as (t & Ht).
+  rewrite strip_app_nospan.
+  - now rewrite strip_sgrs.
+  - rewrite Ht. cbn [app]. apply spans_esc_r.
+Qed.
+
+(* ---------- text without ESC ---------- *)
+
+Definition esc_free (s : bytes) : Prop := ~ In c_esc s.
+
+Lemma sgr_len_esc c r n : sgr_len (c :: r) = S n -> c = c_esc.
+Proof.
+  destruct r as [|b r]; cbn [sgr_len]; [discriminate|].
+  destruct (c =? c_esc) eqn:E; [intros _; now apply N.eqb_eq|discriminate].
+Qed.
+
+Lemma strip_esc_free s : esc_free s -> strip s = s.
+Proof.
+  induction s as [|c r IH]; intros H; [reflexivity|].
+  destruct (sgr_len (c :: r)) as [|n] eqn:E.
+  - rewrite (strip_no_match _ _ E). f_equal. apply IH. intros Hin. apply H. now right.
+  - apply sgr_len_esc in E. exfalso. apply H. now left.
+Qed.
+
+Lemma spans_esc_free a b : esc_free a -> ~ spans a b.
+Proof.
+  intros H (a' & p & q & b' & -> & _ & Hp & _ & (ds & _ & _ & Hs)).
+  destruct p as [|x p]; [congruence|]. cbn [app] in Hs. injection Hs as -> _.
+  apply H, in_or_app. right. now left.
+Qed.
+
+(* strip is not idempotent: removing a sequence can join the two halves of another one *)
+Definition idem_witness : bytes := c_esc :: c_lbr :: c_esc :: b!"[0m3m".
+
+Lemma strip_not_idempotent : strip (strip idem_witness) <> strip idem_witness.
+Proof. vm_compute. discriminate. Qed.
+
+Lemma strip_idempotent_esc_free s : esc_free (strip s) -> strip (strip s) = strip s.
+Proof. apply strip_esc_free. Qed.
+
+(* ---------- documents and boundaries ---------- *)
+
+Section PieceInd.
+  Variable P : piece -> Prop.
+  Hypothesis HP : forall t, P (Plain t).
+  Hypothesis HS : forall p kids, Forall P kids -> P (Styled p kids).
+  Fixpoint piece_ind' (x : piece) : P x :=
+    match x with
+    | Plain t => HP t
+    | Styled p kids =>
+      HS p kids ((fix go (l : list piece) : Forall P l :=
+                    match l with
+                    | [] => Forall_nil P
+                    | k :: r => Forall_cons k (piece_ind' k) (go r)
+                    end) kids)
+    end.
+End PieceInd.
+
+Lemma rend_app th l1 l2 : rend th (l1 ++ l2) = rend th l1 ++ rend th l2.
+Proof. apply flat_map_app. Qed.
+
+Lemma text_of_app l1 l2 : text_of (l1 ++ l2) = text_of l1 ++ text_of l2.
+Proof. apply flat_map_app. Qed.
+
+Lemma rend_no_colour l : rend no_colour l = text_of l.
+Proof.
+  induction l as [|[t|m] r IH]; simpl; [reflexivity| |].
+  - now rewrite <- IH.
+  - now rewrite mark_no_colour, <- IH.
+Qed.
+
+(* render is the concatenation of the tokens *)
+Lemma render_flatten th : forall x outer, render th outer x = rend th (flatten outer x).
+Proof.
+  induction x as [t|p kids IH] using piece_ind'; intros outer; [simpl; now rewrite app_nil_r|].
+  cbn [render flatten].
+  set (body := (fix go (l : list piece) : bytes :=
+                  match l with [] => [] | k :: r => render th (Some p) k ++ go r end) kids).
+  set (toks := (fix go (l : list piece) : list tok :=
+                  match l with [] => [] | k :: r => flatten (Some p) k ++ go r end) kids).
+  assert (Hb : body = rend th toks).
+  { subst body toks. induction IH as [|k r Hk _ IHr]; [reflexivity|]. rewrite rend_app, <- IHr, Hk. reflexivity. }
+  change (M (MSeqs p) :: toks ++ M MReset :: match outer with None => [] | Some q => [M (MSeqs q)] end)
+    with ([M (MSeqs p)] ++ toks ++ [M MReset] ++ match outer with None => [] | Some q => [M (MSeqs q)] end).
+  rewrite !rend_app. rewrite <- Hb. unfold format_and_restore, format.
+  destruct outer; simpl; rewrite ?app_nil_r, <- ?app_assoc; reflexivity.
+Qed.
+
+Lemma render_doc_flatten th doc : render_doc th doc = rend th (flatten_doc doc).
+Proof.
+  unfold render_doc, render_list, flatten_doc. induction doc as [|x r IH]; [reflexivity|].
+  simpl. now rewrite rend_app, render_flatten, IH.
+Qed.
+
+Lemma render_doc_no_colour doc : render_doc no_colour doc = text_of (flatten_doc doc).
+Proof. now rewrite render_doc_flatten, rend_no_colour. Qed.
+
+(* no complete sequence straddles a style mark of the token list (acc = unstyled text to the left) *)
+Definition safe_toks (acc : bytes) (l : list tok) : Prop :=
+  forall l1 m l2, l = l1 ++ M m :: l2 -> ~ spans (acc ++ text_of l1) (text_of l2).
+
+(* boundary_safe: in the unstyled output, no SGR-shaped byte sequence begins before a style
+   boundary of the document and ends after it *)
+Definition boundary_safe (doc : list piece) : Prop := safe_toks [] (flatten_doc doc).
+
+Lemma strip_rend th : theme_ok th -> forall l acc, safe_toks acc l ->
+  strip (acc ++ rend th l) = strip (acc ++ text_of l).
+Proof.
+  intros Hth. induction l as [|[t|m] r IH]; intros acc Hs; [reflexivity| |].
+  - cbn [rend text_of flat_map tok_bytes]. rewrite !app_assoc. apply IH.
+    intros l1 m l2 ->. rewrite <- app_assoc. apply (Hs (T t :: l1) m l2). reflexivity.
+  - cbn [rend text_of flat_map tok_bytes].
+    fold (rend th r). fold (text_of r). cbn [app].
+    destruct (mark_bytes th m) as [|x s] eqn:Em.
+    + cbn [app]. apply IH. intros l1 m' l2 ->. apply (Hs (M m :: l1) m' l2). reflexivity.
+    + rewrite strip_app_sgrs; [|rewrite <- Em; now apply mark_sgrs|discriminate].
+      rewrite <- (app_nil_l (rend th r)), IH, app_nil_l.
+      * symmetry. apply strip_app_nospan. specialize (Hs [] m r eq_refl). cbn [text_of flat_map] in Hs.
+        now rewrite app_nil_r in Hs.
+      * intros l1 m' l2 ->. intros H. apply (Hs (M m :: l1) m' l2 eq_refl).
+        cbn [text_of flat_map app]. fold (text_of l1). cbn [app] in H. now apply spans_left.
+Qed.
+
+(* content neutrality *)
+Lemma strip_render th doc : theme_ok th -> boundary_safe doc ->
+  strip (render_doc th doc) = strip (render_doc no_colour doc).
+Proof.
+  intros Hth Hs. rewrite render_doc_flatten, render_doc_no_colour.
+  apply (strip_rend th Hth (flatten_doc doc) [] Hs).
+Qed.
+
+Lemma strip_render_any th1 th2 doc : theme_ok th1 -> theme_ok th2 -> boundary_safe doc ->
+  strip (render_doc th1 doc) = strip (render_doc th2 doc).
+Proof. intros H1 H2 Hs. rewrite (strip_render th1), (strip_render th2); auto. Qed.
+
+(* without the hypothesis the statement is false *)
+Definition unsafe_doc : list piece :=
+  [Plain (c_esc :: b!"[3"); Styled (mk_props 5 0 false false) [Plain b!"1mX"]].
+
+Lemma strip_render_unsafe : strip (render_doc dark unsafe_doc) <> strip (render_doc no_colour unsafe_doc).
+Proof. vm_compute. discriminate. Qed.
+
+(* ---------- documents whose own text has no ESC ---------- *)
+
+Fixpoint esc_free_toks (l : list tok) : Prop :=
+  match l with
+  | [] => True
+  | T t :: r => esc_free t /\ esc_free_toks r
+  | M _ :: r => esc_free_toks r
+  end.
+
+Lemma esc_free_text l : esc_free_toks l -> esc_free (text_of l).
+Proof.
+  induction l as [|[t|m] r IH]; simpl; intros H; [intros []| |auto].
+  destruct H as [Ht Hr]. intros Hin. apply in_app_or in Hin as [Hin|Hin]; [now apply Ht|now apply IH].
+Qed.
+
+Lemma esc_free_toks_app l1 l2 : esc_free_toks (l1 ++ l2) <-> esc_free_toks l1 /\ esc_free_toks l2.
+Proof. induction l1 as [|[t|m] r IH]; simpl; tauto. Qed.
+
+Inductive esc_free_piece : piece -> Prop :=
+| efp_plain t : esc_free t -> esc_free_piece (Plain t)
+| efp_styled p kids : Forall esc_free_piece kids -> esc_free_piece (Styled p kids).
+
+Lemma esc_free_flatten : forall x outer, esc_free_piece x -> esc_free_toks (flatten outer x).
+Proof.
+  induction x as [t|p kids IH] using piece_ind'; intros outer H; inversion H; subst; [simpl; auto|].
+  cbn [flatten esc_free_toks].
+  apply esc_free_toks_app. split.
+  - clear H. induction IH as [|k r Hk _ IHr]; [exact I|]. inversion H1; subst.
+    apply esc_free_toks_app. split; auto.
+  - destruct outer; simpl; auto.
+Qed.
+
+Lemma esc_free_flatten_doc doc : Forall esc_free_piece doc -> esc_free_toks (flatten_doc doc).
+Proof.
+  induction 1 as [|x r Hx _ IH]; [exact I|]. unfold flatten_doc. simpl.
+  apply esc_free_toks_app. split; [now apply esc_free_flatten|exact IH].
+Qed.
+
+Lemma esc_free_boundary_safe doc : Forall esc_free_piece doc -> boundary_safe doc.
+Proof.
+  intros H l1 m l2 Heq. apply esc_free_flatten_doc in H. rewrite Heq in H.
+  apply esc_free_toks_app in H as [H1 _]. apply spans_esc_free. simpl. now apply esc_free_text.
+Qed.
+
+(* for such documents stripping the styled output gives back exactly the unstyled output *)
+Lemma strip_render_esc_free th doc : theme_ok th -> Forall esc_free_piece doc ->
+  strip (render_doc th doc) = render_doc no_colour doc.
+Proof.
+  intros Hth H. rewrite (strip_render th doc Hth (esc_free_boundary_safe doc H)).
+  apply strip_esc_free. rewrite render_doc_no_colour. apply esc_free_text, esc_free_flatten_doc, H.
+Qed.
+
+(* ---------- the boolean checkers decide the predicates ---------- *)
+
+Lemma forallb_app_l {A} (f : A -> bool) l1 l2 : forallb f (l1 ++ l2) = true -> forallb f l1 = true.
+Proof. rewrite forallb_app. now intros [H _]%andb_true_iff. Qed.
+
+(* a non-empty proper prefix of a complete sequence *)
+Lemma prefix_partial p q : p <> [] -> q <> [] -> sgr_seq (p ++ q) -> partialb p = true.
+Proof.
+  intros Hp Hq (ds & _ & Hds & Heq).
+  destruct p as [|e p0]; [congruence|]. cbn [app] in Heq. injection Heq as -> Heq.
+  cbn [partialb]. rewrite N.eqb_refl. cbn [andb].
+  destruct p0 as [|b ds0]; [reflexivity|]. cbn [app] in Heq. injection Heq as -> Heq.
+  rewrite N.eqb_refl. cbn [andb].
+  apply app_eq_app in Heq as (l & [[H1 H2]|[H1 H2]]).
+  - destruct l as [|x l]; [rewrite app_nil_r in H1; now subst|].
+    destruct l; cbn [app] in H2; [|destruct l; discriminate].
+    injection H2 as _ H2. congruence.
+  - rewrite H1 in Hds. now apply forallb_app_l in Hds.
+Qed.
+
+Lemma spansb_spans a b : spansb a b = true -> spans a b.
+Proof.
+  induction a as [|c r IH]; cbn [spansb]; [discriminate|].
+  intros [H|H]%orb_true_iff.
+  - apply andb_true_iff in H as [_ H]. unfold completesb in H.
+    destruct (sgr_len ((c :: r) ++ b)) as [|n] eqn:E; [discriminate|].
+    apply Nat.ltb_lt in H. apply sgr_len_inv in E as (m & r' & Heq & Hm & Hlm).
+    apply app_eq_app in Heq as (l & [[H1 H2]|[H1 H2]]).
+    + apply (f_equal (@length _)) in H1. rewrite app_length in H1. lia.
+    + destruct l as [|y l].
+      * rewrite app_nil_r in H1. subst m. lia.
+      * exists [], (c :: r), (y :: l), r'. repeat split; try congruence.
+  - apply (spans_left [c]). auto.
+Qed.
+
+Lemma spans_spansb a b : spans a b -> spansb a b = true.
+Proof.
+  intros (a' & p & q & b' & -> & -> & Hp & Hq & Hs).
+  induction a' as [|x a' IH]; cbn [app].
+  - destruct p as [|e p0]; [congruence|]. cbn [spansb]. apply orb_true_iff. left.
+    rewrite (prefix_partial (e :: p0) q Hp Hq Hs). cbn [andb]. unfold completesb.
+    rewrite app_assoc, (sgr_len_seq _ b' Hs).
+    destruct q as [|y q]; [congruence|]. rewrite app_length. cbn [length].
+    cbn [Nat.add]. apply Nat.ltb_lt. lia.
+  - cbn [spansb]. apply orb_true_iff. right. exact IH.
+Qed.
+
+Lemma spansb_false a b : spansb a b = false -> ~ spans a b.
+Proof. intros H Hs. apply spans_spansb in Hs. congruence. Qed.
+
+(* a does not end inside an incomplete sequence *)
+Definition closed (a : bytes) : Prop := danglingb a = false.
+
+Lemma closed_nospan a b : closed a -> ~ spans a b.
+Proof.
+  unfold closed. intros Hc (a' & p & q & b' & -> & _ & Hp & Hq & Hs).
+  pose proof (prefix_partial p q Hp Hq Hs) as Hpp.
+  induction a' as [|x a' IH]; cbn [app] in Hc.
+  - destruct p; [congruence|]. cbn [danglingb] in Hc. rewrite Hpp in Hc. discriminate.
+  - cbn [danglingb] in Hc. apply orb_false_iff in Hc as [_ Hc]. auto.
+Qed.
+
+Lemma strip_app_closed a b : closed a -> strip (a ++ b) = strip a ++ strip b.
+Proof. intros H. apply strip_app_nospan, closed_nospan, H. Qed.
+
+Lemma safe_from_spec l : forall acc, safe_from acc l = true <-> safe_toks acc l.
+Proof.
+  induction l as [|[t|m0] r IH]; intros acc; cbn [safe_from].
+  - split; [|reflexivity]. intros _ l1 m l2 H. destruct l1; discriminate.
+  - rewrite IH. split; intros H l1 m l2 Heq.
+    + destruct l1 as [|k l1]; [discriminate|]. cbn [app] in Heq. injection Heq as Hk Hr. subst k r.
+      cbn [text_of flat_map]. fold (text_of l1). rewrite app_assoc. now apply (H l1 m l2).
+    + subst r. specialize (H (T t :: l1) m l2 eq_refl). cbn [text_of flat_map] in H. fold (text_of l1) in H.
+      now rewrite app_assoc in H.
+  - rewrite andb_true_iff, negb_true_iff, IH. split.
+    + intros [H1 H2] l1 m l2 Heq. destruct l1 as [|k l1].
+      * cbn [app] in Heq. injection Heq as _ Hr. subst r. cbn [text_of flat_map]. rewrite app_nil_r. now apply spansb_false.
+      * cbn [app] in Heq. injection Heq as Hk Hr. subst k r. cbn [text_of flat_map app]. fold (text_of l1). now apply (H2 l1 m l2).
+    + intros H. split.
+      * destruct (spansb acc (text_of r)) eqn:E; [|reflexivity]. exfalso.
+        apply (H [] m0 r eq_refl). cbn [text_of flat_map]. rewrite app_nil_r. now apply spansb_spans.
+      * intros l1 m l2 ->. apply (H (M m0 :: l1) m l2 eq_refl).
+Qed.
+
+Lemma boundary_safeb_spec doc : boundary_safeb doc = true <-> boundary_safe doc.
+Proof. apply safe_from_spec. Qed.
+
+(* ---------- boundary_safe is also necessary ---------- *)
+
+Lemma params_len_allp ds : forallb is_param ds = true -> params_len ds = length ds.
+Proof.
+  induction ds as [|d ds IH]; [reflexivity|]. cbn [forallb params_len].
+  intros [Hd H]%andb_true_iff. rewrite Hd. cbn [length]. f_equal. auto.
+Qed.
+
+Lemma partial_shape p : partialb p = true -> exists q0, p = c_esc :: q0 /\ esc_free q0 /\ sgr_len p = O.
+Proof.
+  destruct p as [|e q0]; [discriminate|]. cbn [partialb].
+  intros [He H]%andb_true_iff. apply N.eqb_eq in He. subst e. exists q0. split; [reflexivity|].
+  destruct q0 as [|b ds]; [split; [intros []|reflexivity]|].
+  apply andb_true_iff in H as [Hb Hds]. apply N.eqb_eq in Hb. subst b. split.
+  - intros [H|H]; [discriminate|]. rewrite forallb_forall in Hds. apply Hds in H. discriminate.
+  - cbn [sgr_len]. rewrite !N.eqb_refl. cbn [andb]. rewrite (params_len_allp _ Hds).
+    replace (nth_error ds (length ds)) with (@None N); [now rewrite andb_false_r|].
+    symmetry. apply nth_error_None. lia.
+Qed.
+
+Lemma strip_partial p : partialb p = true -> strip p = p.
+Proof.
+  intros H. apply partial_shape in H as (q0 & -> & Hq & Hl).
+  rewrite (strip_no_match _ _ Hl). f_equal. now apply strip_esc_free.
+Qed.
+
+(* a straddling sequence is removed from a ++ b but survives in a and in b *)
+Lemma strip_len_spans a b : spans a b ->
+  (length (strip (a ++ b)) < length (strip a) + length (strip b))%nat.
+Proof.
+  intros (a' & p & q & b' & -> & -> & Hp & Hq & Hs).
+  pose proof (prefix_partial p q Hp Hq Hs) as Hpp.
+  assert (E1 : strip ((a' ++ p) ++ q ++ b') = strip a' ++ strip b').
+  { rewrite <- app_assoc, (app_assoc p q b'). apply strip_app_sgrs; [now apply sgrs_one|].
+    destruct p; [congruence|discriminate]. }
+  assert (E2 : strip (a' ++ p) = strip a' ++ p).
+  { rewrite strip_app_nospan, (strip_partial _ Hpp); [reflexivity|].
+    destruct (partial_shape _ Hpp) as (q0 & -> & _). apply spans_esc_r. }
+  assert (E3 : strip (q ++ b') = q ++ strip b').
+  { assert (Hf : esc_free q).
+    { destruct p as [|x p]; [congruence|]. cbn [app] in Hs. apply sgr_seq_tail in Hs.
+      intros Hin. apply Hs, in_or_app. now right. }
+    rewrite strip_app_nospan, (strip_esc_free _ Hf); [reflexivity|now apply spans_esc_free]. }
+  rewrite E1, E2, E3, !app_length.
+  destruct p; [congruence|]. destruct q; [congruence|]. cbn [length]. lia.
+Qed.
+
+Lemma strip_len_app a b : (length (strip (a ++ b)) <= length (strip a) + length (strip b))%nat.
+Proof.
+  destruct (spansb a b) eqn:E.
+  - apply spansb_spans, strip_len_spans in E. lia.
+  - apply spansb_false in E. rewrite (strip_app_nospan _ _ E), app_length. lia.
+Qed.
+
+Definition unsafe_toks (acc : bytes) (l : list tok) : Prop :=
+  exists l1 m l2, l = l1 ++ M m :: l2 /\ spans (acc ++ text_of l1) (text_of l2).
+
+Lemma safe_from_false l : forall acc, safe_from acc l = false -> unsafe_toks acc l.
+Proof.
+  induction l as [|[t|m0] r IH]; intros acc; cbn [safe_from]; [discriminate| |].
+  - intros H. apply IH in H as (l1 & m & l2 & -> & H). exists (T t :: l1), m, l2. split; [reflexivity|].
+    cbn [text_of flat_map]. fold (text_of l1). now rewrite app_assoc.
+  - intros [H|H]%andb_false_iff.
+    + apply negb_false_iff in H. exists [], m0, r. split; [reflexivity|].
+      cbn [text_of flat_map]. rewrite app_nil_r. now apply spansb_spans.
+    + apply IH in H as (l1 & m & l2 & -> & H). exists (M m0 :: l1), m, l2. split; [reflexivity|exact H].
+Qed.
+
+Lemma mark_nonnil th m : th_reset th <> [] -> mark_bytes th m <> [].
+Proof.
+  intros H. destruct m; cbn [mark_bytes]; [|exact H]. unfold seqs.
+  destruct (th_reset th); [congruence|discriminate].
+Qed.
+
+Lemma strip_rend_le th : theme_ok th -> th_reset th <> [] -> forall l acc,
+  (length (strip (acc ++ text_of l)) <= length (strip (acc ++ rend th l)))%nat.
+Proof.
+  intros Hth Hr. induction l as [|[t|m] r IH]; intros acc; [apply le_n| |].
+  - cbn [rend text_of flat_map tok_bytes]. rewrite !app_assoc. apply IH.
+  - cbn [rend text_of flat_map tok_bytes app]. fold (rend th r). fold (text_of r).
+    rewrite (strip_app_sgrs acc _ (rend th r) (mark_sgrs th m Hth) (mark_nonnil th m Hr)), app_length.
+    pose proof (strip_len_app acc (text_of r)). pose proof (IH []). cbn [app] in *. lia.
+Qed.
+
+Lemma strip_rend_lt th : theme_ok th -> th_reset th <> [] -> forall l acc, unsafe_toks acc l ->
+  (length (strip (acc ++ text_of l)) < length (strip (acc ++ rend th l)))%nat.
+Proof.
+  intros Hth Hr. induction l as [|[t|m0] r IH]; intros acc (l1 & m & l2 & Heq & Hsp).
+  - destruct l1; discriminate.
+  - destruct l1 as [|k l1]; [discriminate|]. cbn [app] in Heq. injection Heq as Hk Hrr. subst k r.
+    cbn [rend text_of flat_map tok_bytes]. rewrite !app_assoc. apply IH.
+    exists l1, m, l2. split; [reflexivity|]. cbn [text_of flat_map] in Hsp. fold (text_of l1) in Hsp.
+    now rewrite app_assoc in Hsp.
+  - cbn [rend text_of flat_map tok_bytes app]. fold (rend th r). fold (text_of r).
+    rewrite (strip_app_sgrs acc _ (rend th r) (mark_sgrs th m0 Hth) (mark_nonnil th m0 Hr)), app_length.
+    pose proof (strip_rend_le th Hth Hr r []) as Hle. cbn [app] in Hle.
+    pose proof (strip_len_app acc (text_of r)) as Hsub.
+    assert (Hcase : spans acc (text_of r) \/ unsafe_toks [] r).
+    { destruct l1 as [|k l1]; cbn [app] in Heq.
+      - injection Heq as _ Hrr. subst r. left. cbn [text_of flat_map] in Hsp. now rewrite app_nil_r in Hsp.
+      - injection Heq as Hk Hrr. subst k r. cbn [text_of flat_map app] in Hsp. fold (text_of l1) in Hsp.
+        destruct Hsp as (a' & p & q & b' & Ha & Hb & Hp & Hq & Hs).
+        apply app_eq_app in Ha as (l & [[H1 H2]|[H1 H2]]).
+        + destruct l as [|y l].
+          * right. exists l1, m, l2. split; [reflexivity|]. cbn [app] in *. subst p.
+            exists [], (text_of l1), q, b'. repeat split; auto.
+          * left. rewrite text_of_app. cbn [text_of flat_map app]. fold (text_of l2).
+            exists a', (y :: l), (text_of l1 ++ q), b'. repeat split; try congruence.
+            -- rewrite Hb. now rewrite app_assoc.
+            -- destruct (text_of l1); [cbn [app]; exact Hq|discriminate].
+            -- rewrite app_assoc, <- H2. exact Hs.
+        + right. exists l1, m, l2. split; [reflexivity|]. cbn [app].
+          exists l, p, q, b'. repeat split; auto. }
+    destruct Hcase as [H|H].
+    + apply strip_len_spans in H. lia.
+    + apply IH in H. cbn [app] in H. lia.
+Qed.
+
+(* if a sequence straddles a boundary, every theme that emits something at every boundary
+   (a non-empty reset) makes the stripped outputs differ *)
+Lemma boundary_safe_necessary th doc : theme_ok th -> th_reset th <> [] -> ~ boundary_safe doc ->
+  strip (render_doc th doc) <> strip (render_doc no_colour doc).
+Proof.
+  intros Hth Hr Hn. destruct (boundary_safeb doc) eqn:E; [apply boundary_safeb_spec in E; contradiction|].
+  apply safe_from_false in E. apply (strip_rend_lt th Hth Hr) in E. cbn [app] in E.
+  rewrite render_doc_flatten, render_doc_no_colour. intros Heq. rewrite Heq in E. lia.
+Qed.
+
+Lemma boundary_safe_iff doc :
+  boundary_safe doc <->
+  forall th, theme_ok th -> strip (render_doc th doc) = strip (render_doc no_colour doc).
+Proof.
+  split; [intros H th Hth; now apply strip_render|].
+  intros H. destruct (boundary_safeb doc) eqn:E; [now apply boundary_safeb_spec|]. exfalso.
+  assert (Hn : ~ boundary_safe doc) by (intros Hs; apply boundary_safeb_spec in Hs; congruence).
+  apply (boundary_safe_necessary dark doc dark_ok) in Hn; [|discriminate]. apply Hn, H, dark_ok.
+Qed.
